@@ -221,11 +221,14 @@ func c19(c *Ctx) {
 	if fn := c.Fn(rx, "R3", "detect"); fn != nil {
 		dg := rx.FG(fn)
 		res := fn.Obj.Type().(*types.Signature).Params().At(1)
-		var detected types.Object
+		var detected, detErr types.Object
+		var detectStmt ast.Node
 		inspectNoLit(fn.Body(), func(n ast.Node) bool {
 			if as, ok := n.(*ast.AssignStmt); ok && len(as.Rhs) == 1 && len(as.Lhs) == 2 {
 				if call, ok := unparen(as.Rhs[0]).(*ast.CallExpr); ok && isCallTo(info, call, "("+sdkResource+".Detector).Detect") {
 					detected = objOf(info, as.Lhs[0])
+					detErr = objOf(info, as.Lhs[1])
+					detectStmt = as
 				}
 			}
 			return true
@@ -275,6 +278,28 @@ func c19(c *Ctx) {
 			}
 			c.Check(okSkip, "R3", "sdk/resource|detect|merge skipped only for nil detectors and non-partial errors", at(rx.M, fn.Pos()), "partial results are kept", "a detector's (partial) result can be dropped although it should be merged")
 		}
+		// a detector that failed with a non-partial error contributes nothing: from the Detect call the merge is reached only
+		// across an edge that implies "this detector's error is nil" or "this detector's error is ErrPartialResource"
+		if len(merges) == 1 && detErr != nil && detectStmt != nil {
+			start := dg.NodeOf(detectStmt)
+			isDetErr := func(x ast.Expr) bool { return sameVar(info, x, detErr) }
+			okFail := start != nil
+			if okFail {
+				seen, _ := dg.Reach([]*GNode{start}, nil, func(e *GEdge) bool {
+					return edgeImplies(e, func(cnd ast.Expr, pol int) bool {
+						if nn, ok := nilCmp(info, cnd, pol, isDetErr); ok && !nn {
+							return true
+						}
+						if call, ok := cnd.(*ast.CallExpr); ok && pol > 0 && isCallTo(info, call, "errors.Is") && len(call.Args) == 2 && isDetErr(call.Args[0]) && strings.Contains(exprStr(call.Args[1]), "ErrPartialResource") {
+							return true
+						}
+						return false
+					})
+				})
+				okFail = !seen[merges[0]]
+			}
+			c.Check(okFail, "R3", "sdk/resource|detect|a non-partial failure of a detector keeps its resource out of the merge", at(rx.M, fn.Pos()), "merge reached only with this detector's error nil or partial", "a detector that failed (non-partial error, judged on this detector's own error) still has its resource merged and overrides earlier detectors")
+		}
 		// errors joined
 		joined := 0
 		inspectNoLit(fn.Body(), func(n ast.Node) bool {
@@ -303,6 +328,9 @@ func c19(c *Ctx) {
 		c.Check(good, "R3", "sdk/resource|NewSchemaless|filter keeps kv.Valid() only", at(rx.M, fn.Pos()), "invalid keys never enter a resource", "resources can hold attributes with empty keys / invalid values")
 	}
 
+	c.Rule("R5", "E4 provenance", "OTEL_RESOURCE_ATTRIBUTES: the stored value is the percent-decoder's output (or the raw text when decoding fails) with nothing applied after decoding; pairs without '=' are not stored", 4)
+	ruleEnvParser(c, rx, "R5")
+
 	c.Rule("R4", "E4 delegation", "Equal and Equivalent delegate to the attribute set's identity", 2)
 	if fn := c.Fn(rx, "R4", "(*Resource).Equivalent"); fn != nil {
 		good := false
@@ -323,6 +351,105 @@ func c19(c *Ctx) {
 			return true
 		})
 		c.Check(strings.Contains(src, "Equivalent()"), "R4", "sdk/resource|(*Resource).Equal|compares Equivalent() of both sides", at(rx.M, fn.Pos()), src, "Equal no longer compares canonical identities")
+	}
+}
+
+// ruleEnvParser: structural necessary conditions of "OTEL_RESOURCE_ATTRIBUTES values decode percent-escapes losslessly":
+// the value stored for a pair is exactly the output of url.PathUnescape (or the raw text when decoding fails), nothing is
+// applied to it after decoding; the pair is cut at its first "="; pairs without "=" are reported and not stored.
+func ruleEnvParser(c *Ctx, rx *PkgIndex, rule string) {
+	info := rx.Pkg.TypesInfo
+	fn := c.Fn(rx, rule, "constructOTResources")
+	if fn == nil {
+		return
+	}
+	var val, raw, key, rawKey, found types.Object
+	var unesc *ast.CallExpr
+	inspectNoLit(fn.Body(), func(n ast.Node) bool {
+		as, ok := n.(*ast.AssignStmt)
+		if !ok || len(as.Rhs) != 1 {
+			return true
+		}
+		call, ok := unparen(as.Rhs[0]).(*ast.CallExpr)
+		if !ok {
+			return true
+		}
+		switch {
+		case isCallTo(info, call, "net/url.PathUnescape") && len(as.Lhs) == 2:
+			val = objOf(info, as.Lhs[0])
+			unesc = call
+		case isCallTo(info, call, "strings.Cut") && len(as.Lhs) == 3:
+			rawKey, raw, found = objOf(info, as.Lhs[0]), objOf(info, as.Lhs[1]), objOf(info, as.Lhs[2])
+			_ = rawKey
+		}
+		return true
+	})
+	if val == nil || raw == nil || unesc == nil {
+		c.Undecided(rule, "sdk/resource|constructOTResources|value = PathUnescape(trimmed text)", at(rx.M, fn.Pos()), "decoder call or strings.Cut not found")
+		return
+	}
+	// decoder input: the raw value, at most trimmed of literal surrounding white space
+	in := unparen(unesc.Args[0])
+	okIn := sameVar(info, in, raw)
+	if call, ok := in.(*ast.CallExpr); ok && isCallTo(info, call, "strings.TrimSpace") && len(call.Args) == 1 && sameVar(info, call.Args[0], raw) {
+		okIn = true
+	}
+	c.Check(okIn, rule, "sdk/resource|constructOTResources|decoder input is the pair's value text", at(rx.M, fn.Pos()), exprStr(in), "the percent-decoder no longer receives the text after the first '='")
+	// every other definition of the decoded value is the raw text (fallback on a decoding error)
+	okDefs, nDefs := true, 0
+	inspectNoLit(fn.Body(), func(n ast.Node) bool {
+		as, ok := n.(*ast.AssignStmt)
+		if !ok {
+			return true
+		}
+		for i, l := range as.Lhs {
+			if !sameVar(info, l, val) {
+				continue
+			}
+			nDefs++
+			if len(as.Rhs) == 1 && unparen(as.Rhs[0]) == ast.Expr(unesc) {
+				continue
+			}
+			if len(as.Rhs) == len(as.Lhs) && as.Tok == token.ASSIGN && sameVar(info, as.Rhs[i], raw) {
+				continue
+			}
+			okDefs = false
+		}
+		return true
+	})
+	c.Check(okDefs && nDefs >= 1, rule, "sdk/resource|constructOTResources|decoded value defined only by the decoder or the raw text", at(rx.M, fn.Pos()), itoa(nDefs)+" definitions", "the decoded value is rewritten after decoding (escaped characters are altered or lost)")
+	// the stored value is that variable itself, the stored key the trimmed key
+	okStore, nStore := true, 0
+	inspectNoLit(fn.Body(), func(n ast.Node) bool {
+		call, ok := n.(*ast.CallExpr)
+		if !ok || !isCallTo(info, call, otelPrefix+"/attribute.String") || len(call.Args) != 2 {
+			return true
+		}
+		nStore++
+		if !sameVar(info, call.Args[1], val) {
+			okStore = false
+		}
+		key = objOf(info, call.Args[0])
+		return true
+	})
+	c.Check(okStore && nStore == 1, rule, "sdk/resource|constructOTResources|stored value is the decoder's output unchanged", at(rx.M, fn.Pos()), "attribute.String(key, val)", "a transformation is applied to the value after percent-decoding: escaped characters (e.g. %20 at either end) are not preserved")
+	_ = key
+	// pairs without "=" are skipped: the store is not reachable across the !found edge
+	if found != nil {
+		g := rx.FG(fn)
+		stores := g.Match(func(n ast.Node) bool {
+			call, ok := n.(*ast.CallExpr)
+			return ok && isCallTo(info, call, otelPrefix+"/attribute.String")
+		})
+		okSkip := len(stores) == 1
+		if okSkip {
+			seen, _ := g.ReachFromEntry(nil, func(e *GEdge) bool {
+				return edgeImplies(e, func(cnd ast.Expr, pol int) bool { return pol > 0 && sameVar(info, cnd, found) })
+			})
+			// with every "found" edge removed the store must be unreachable
+			okSkip = !seen[stores[0]]
+		}
+		c.Check(okSkip, rule, "sdk/resource|constructOTResources|pairs without '=' are not stored", at(rx.M, fn.Pos()), "store dominated by found", "a pair without '=' produces an attribute")
 	}
 }
 
